@@ -10,7 +10,7 @@ conf=$(echo "$out" | grep "^CONFIRMED")
 import json,sys
 id_,prop,needs,rnd,name,wt=sys.argv[1:7]
 meta={"property":prop,"needs":needs,
- "written_by":"independent sub-agent r%s-%s (round %s) given only the property text, the list of mechanisms earlier rounds had used (to avoid), a hint at the kind of change (two cooperating edits / multi-step sequence or unusual input) and its own worktree of /repo at 6213085"%(rnd,name,rnd),
+ "written_by":"independent sub-agent r%s-%s (round %s) given only the property text, the list of mechanisms earlier rounds had used (to avoid), a hint (round 8: two cooperating edits / multi-step sequence or unusual input; round 9: areas of the code earlier rounds had not touched) and its own worktree of /repo (round 8: 6213085, round 9: bba653a)"%(rnd,name,rnd),
  "confirmed":"tools/confirm_seeded.sh in the scratch worktree %s: demo.py exit 0 on the clean tree; git apply patch.diff; pytest tests -> 45 passed, 1 skipped; demo.py exit 1; git checkout -- pybufrkit"%wt,
  "demo_cmd":"/verif/seeded/run_demo.sh <id> [tree]   (exit 0 on the unchanged tree, exit 1 with patch.diff applied to the tree)",
  "expected_caught_by":[prop]}
